@@ -1,304 +1,329 @@
 /-
-C04 proofs — structural invariants (epochNear, epochFree, epochWalk): preservation by `exec` and `begin`.
+C04 proofs — structural invariants (snapEpoch, curCan, pend): preservation by `exec` and `begin`.
 -/
-import TbbVerif.Proofs.C04.ReachC
+import TbbVerif.Proofs.C04.ReachC2
 
 namespace TbbVerif.C04
-variable {cfg : Cfg} {reg : List Nat} {s : St} {t : Nat}
+variable {cfg : Cfg} {r : List RF} {reg : List Nat} {s : St} {t : Nat}
 
-theorem epochNear_exec_c (hS : Struct reg s) (hO : Orig s) (hR : Reach reg s) :
-    ∀ L, L ∈ reg → (execCancel C reg s t).epoch L = (execCancel C reg s t).G ∨ (execCancel C reg s t).epoch L + 1 = (execCancel C reg s t).G := by
-  have g0 := hR.epochNear
-  have g1 := hR.epochWalk
-  have g1t := hR.epochWalk t
-  have g2 := hR.propMx
-  have g2t := hR.propMx t
-  have g3 := hR.syncG
-  have g3t := hR.syncG t
+theorem snapEpoch_exec_c (hS : Struct reg s) (hO : Orig s) (hH : Hint s) (hR : Reach reg s) :
+    ∀ t' x p n L, (execCancel (C r) reg s t).pc t' = .bSpecL x p n → (execCancel (C r) reg s t).lst p = some L → n ≤ (execCancel (C r) reg s t).eff L := by
+  have g0 := hR.snapEpoch
+  have g0t := hR.snapEpoch t
+  have g1 := hR.epochLe
+  have g2 := hR.joinedLe
+  have g3 := hR.freshLe
+  have g4 := hR.syncG
+  have g4t := hR.syncG t
+  have g5 := hS.bindAlive
+  have g5t := hS.bindAlive t
+  have g6 := hS.ownsSt
+  have g6t := hS.ownsSt t
+  have g7 := hS.dyingOk
+  have g7t := hS.dyingOk t
+  have g8 := hS.regPc
+  have g8t := hS.regPc t
+  have g9 := hS.itemsOk
+  have g9t := hS.itemsOk t
+  have g10 := hS.notWasEmpty
+  have g10t := hS.notWasEmpty t
   unfold execCancel
   try unfold walkNext
   try unfold afterHint
-  try simp only [C_propHolds, C_copyNeverClears, afterLists, ↓reduceIte, Bool.true_and]
-  repeat' split
-  all_goals (try rw [‹s.pc t = _›] at g1t)
-  all_goals (try simp [Pc.inProp, Pc.walkFrom] at g1t)
-  all_goals (try rw [‹s.pc t = _›] at g2t)
-  all_goals (try simp [Pc.inProp, Pc.walkFrom] at g2t)
-  all_goals (try rw [‹s.pc t = _›] at g3t)
-  all_goals (try simp [Pc.inProp, Pc.walkFrom] at g3t)
-  all_goals (intro L h1; try simp [C, upd_apply, afterLists, nextList] at h1 ⊢)
-  all_goals grind [Pc.inProp, Pc.walkFrom]
-
-theorem epochNear_exec_b (hS : Struct reg s) (hO : Orig s) (hR : Reach reg s) :
-    ∀ L, L ∈ reg → (execBind C s t).epoch L = (execBind C s t).G ∨ (execBind C s t).epoch L + 1 = (execBind C s t).G := by
-  have g0 := hR.epochNear
-  have g1 := hR.epochWalk
-  have g1t := hR.epochWalk t
-  have g2 := hR.propMx
-  have g2t := hR.propMx t
-  have g3 := hR.syncG
-  have g3t := hR.syncG t
-  unfold execBind
-  try unfold walkNext
-  try unfold afterHint
-  try simp only [C_propHolds, C_copyNeverClears, afterLists, ↓reduceIte, Bool.true_and]
-  repeat' split
-  all_goals (try rw [‹s.pc t = _›] at g1t)
-  all_goals (try simp [Pc.inProp, Pc.walkFrom] at g1t)
-  all_goals (try rw [‹s.pc t = _›] at g2t)
-  all_goals (try simp [Pc.inProp, Pc.walkFrom] at g2t)
-  all_goals (try rw [‹s.pc t = _›] at g3t)
-  all_goals (try simp [Pc.inProp, Pc.walkFrom] at g3t)
-  all_goals (intro L h1; try simp [C, upd_apply, afterLists, nextList] at h1 ⊢)
-  all_goals grind [Pc.inProp, Pc.walkFrom]
-
-theorem epochNear_exec_o (hS : Struct reg s) (hO : Orig s) (hR : Reach reg s) :
-    ∀ L, L ∈ reg → (execOther s t).epoch L = (execOther s t).G ∨ (execOther s t).epoch L + 1 = (execOther s t).G := by
-  have g0 := hR.epochNear
-  have g1 := hR.epochWalk
-  have g1t := hR.epochWalk t
-  have g2 := hR.propMx
-  have g2t := hR.propMx t
-  have g3 := hR.syncG
-  have g3t := hR.syncG t
-  unfold execOther
-  try unfold walkNext
-  try unfold afterHint
-  try simp only [C_propHolds, C_copyNeverClears, afterLists, ↓reduceIte, Bool.true_and]
-  repeat' split
-  all_goals (try rw [‹s.pc t = _›] at g1t)
-  all_goals (try simp [Pc.inProp, Pc.walkFrom] at g1t)
-  all_goals (try rw [‹s.pc t = _›] at g2t)
-  all_goals (try simp [Pc.inProp, Pc.walkFrom] at g2t)
-  all_goals (try rw [‹s.pc t = _›] at g3t)
-  all_goals (try simp [Pc.inProp, Pc.walkFrom] at g3t)
-  all_goals (intro L h1; try simp [C, upd_apply, afterLists, nextList] at h1 ⊢)
-  all_goals grind [Pc.inProp, Pc.walkFrom]
-
-theorem epochNear_exec (hS : Struct reg s) (hO : Orig s) (hR : Reach reg s) :
-    ∀ L, L ∈ reg → (exec C reg s t).epoch L = (exec C reg s t).G ∨ (exec C reg s t).epoch L + 1 = (exec C reg s t).G := by
-  unfold exec
-  split
-  · exact epochNear_exec_c hS hO hR
-  · split
-    · exact epochNear_exec_b hS hO hR
-    · exact epochNear_exec_o hS hO hR
-
-theorem epochNear_begin (hS : Struct reg s) (hO : Orig s) (hR : Reach reg s) (hi : s.pc t = .idle) :
-    ∀ L, L ∈ reg → (begin reg s t).epoch L = (begin reg s t).G ∨ (begin reg s t).epoch L + 1 = (begin reg s t).G := by
-  have g0 := hR.epochNear
-  have g1 := hR.epochWalk
-  have g1t := hR.epochWalk t
-  have g2 := hR.propMx
-  have g2t := hR.propMx t
-  have g3 := hR.syncG
-  have g3t := hR.syncG t
-  begin_cases
-  all_goals (try rw [hi] at g1t)
-  all_goals (try simp [Pc.inProp, Pc.walkFrom] at g1t)
-  all_goals (try rw [hi] at g2t)
-  all_goals (try simp [Pc.inProp, Pc.walkFrom] at g2t)
-  all_goals (try rw [hi] at g3t)
-  all_goals (try simp [Pc.inProp, Pc.walkFrom] at g3t)
-  all_goals (intro L h1; try simp [C, upd_apply, afterLists, nextList] at h1 ⊢)
-  all_goals grind [Pc.inProp, Pc.walkFrom]
-
-theorem epochFree_exec_c (hS : Struct reg s) (hO : Orig s) (hR : Reach reg s) :
-    ∀ L, L ∈ reg → (execCancel C reg s t).propMx = none → (execCancel C reg s t).epoch L = (execCancel C reg s t).G := by
-  have g0 := hR.epochFree
-  have g1 := hR.epochWalk
-  have g1t := hR.epochWalk t
-  have g2 := hR.propMx
-  have g2t := hR.propMx t
-  have g3 := hR.syncG
-  have g3t := hR.syncG t
-  unfold execCancel
-  try unfold walkNext
-  try unfold afterHint
-  try simp only [C_propHolds, C_copyNeverClears, afterLists, ↓reduceIte, Bool.true_and]
-  repeat' split
-  all_goals (try rw [‹s.pc t = _›] at g1t)
-  all_goals (try simp [Pc.inProp, Pc.walkFrom] at g1t)
-  all_goals (try rw [‹s.pc t = _›] at g2t)
-  all_goals (try simp [Pc.inProp, Pc.walkFrom] at g2t)
-  all_goals (try rw [‹s.pc t = _›] at g3t)
-  all_goals (try simp [Pc.inProp, Pc.walkFrom] at g3t)
-  all_goals (intro L h1 h2; try simp [C, upd_apply, afterLists, nextList] at h1 h2 ⊢)
-  all_goals grind [Pc.inProp, Pc.walkFrom]
-
-theorem epochFree_exec_b (hS : Struct reg s) (hO : Orig s) (hR : Reach reg s) :
-    ∀ L, L ∈ reg → (execBind C s t).propMx = none → (execBind C s t).epoch L = (execBind C s t).G := by
-  have g0 := hR.epochFree
-  have g1 := hR.epochWalk
-  have g1t := hR.epochWalk t
-  have g2 := hR.propMx
-  have g2t := hR.propMx t
-  have g3 := hR.syncG
-  have g3t := hR.syncG t
-  unfold execBind
-  try unfold walkNext
-  try unfold afterHint
-  try simp only [C_propHolds, C_copyNeverClears, afterLists, ↓reduceIte, Bool.true_and]
-  repeat' split
-  all_goals (try rw [‹s.pc t = _›] at g1t)
-  all_goals (try simp [Pc.inProp, Pc.walkFrom] at g1t)
-  all_goals (try rw [‹s.pc t = _›] at g2t)
-  all_goals (try simp [Pc.inProp, Pc.walkFrom] at g2t)
-  all_goals (try rw [‹s.pc t = _›] at g3t)
-  all_goals (try simp [Pc.inProp, Pc.walkFrom] at g3t)
-  all_goals (intro L h1 h2; try simp [C, upd_apply, afterLists, nextList] at h1 h2 ⊢)
-  all_goals grind [Pc.inProp, Pc.walkFrom]
-
-theorem epochFree_exec_o (hS : Struct reg s) (hO : Orig s) (hR : Reach reg s) :
-    ∀ L, L ∈ reg → (execOther s t).propMx = none → (execOther s t).epoch L = (execOther s t).G := by
-  have g0 := hR.epochFree
-  have g1 := hR.epochWalk
-  have g1t := hR.epochWalk t
-  have g2 := hR.propMx
-  have g2t := hR.propMx t
-  have g3 := hR.syncG
-  have g3t := hR.syncG t
-  unfold execOther
-  try unfold walkNext
-  try unfold afterHint
-  try simp only [C_propHolds, C_copyNeverClears, afterLists, ↓reduceIte, Bool.true_and]
-  repeat' split
-  all_goals (try rw [‹s.pc t = _›] at g1t)
-  all_goals (try simp [Pc.inProp, Pc.walkFrom] at g1t)
-  all_goals (try rw [‹s.pc t = _›] at g2t)
-  all_goals (try simp [Pc.inProp, Pc.walkFrom] at g2t)
-  all_goals (try rw [‹s.pc t = _›] at g3t)
-  all_goals (try simp [Pc.inProp, Pc.walkFrom] at g3t)
-  all_goals (intro L h1 h2; try simp [C, upd_apply, afterLists, nextList] at h1 h2 ⊢)
-  all_goals grind [Pc.inProp, Pc.walkFrom]
-
-theorem epochFree_exec (hS : Struct reg s) (hO : Orig s) (hR : Reach reg s) :
-    ∀ L, L ∈ reg → (exec C reg s t).propMx = none → (exec C reg s t).epoch L = (exec C reg s t).G := by
-  unfold exec
-  split
-  · exact epochFree_exec_c hS hO hR
-  · split
-    · exact epochFree_exec_b hS hO hR
-    · exact epochFree_exec_o hS hO hR
-
-theorem epochFree_begin (hS : Struct reg s) (hO : Orig s) (hR : Reach reg s) (hi : s.pc t = .idle) :
-    ∀ L, L ∈ reg → (begin reg s t).propMx = none → (begin reg s t).epoch L = (begin reg s t).G := by
-  have g0 := hR.epochFree
-  have g1 := hR.epochWalk
-  have g1t := hR.epochWalk t
-  have g2 := hR.propMx
-  have g2t := hR.propMx t
-  have g3 := hR.syncG
-  have g3t := hR.syncG t
-  begin_cases
-  all_goals (try rw [hi] at g1t)
-  all_goals (try simp [Pc.inProp, Pc.walkFrom] at g1t)
-  all_goals (try rw [hi] at g2t)
-  all_goals (try simp [Pc.inProp, Pc.walkFrom] at g2t)
-  all_goals (try rw [hi] at g3t)
-  all_goals (try simp [Pc.inProp, Pc.walkFrom] at g3t)
-  all_goals (intro L h1 h2; try simp [C, upd_apply, afterLists, nextList] at h1 h2 ⊢)
-  all_goals grind [Pc.inProp, Pc.walkFrom]
-
-theorem epochWalk_exec_c (hS : Struct reg s) (hO : Orig s) (hR : Reach reg s) :
-    ∀ t' L, L ∈ reg → (execCancel C reg s t).propMx = some t' → (execCancel C reg s t).epoch L ≠ (execCancel C reg s t).G → ∃ j, ((execCancel C reg s t).pc t').walkFrom = some j ∧ L ∈ reg.drop j := by
-  have g0 := hR.epochWalk
-  have g0t := hR.epochWalk t
-  have g1 := hR.epochFree
-  have g2 := hR.propMx
-  have g2t := hR.propMx t
-  have g3 := hR.syncG
-  have g3t := hR.syncG t
-  have g4 := hR.epochNear
-  unfold execCancel
-  try unfold walkNext
-  try unfold afterHint
+  try unfold applyReset
   try simp only [C_propHolds, C_copyNeverClears, afterLists, ↓reduceIte, Bool.true_and]
   repeat' split
   all_goals (try rw [‹s.pc t = _›] at g0t)
-  all_goals (try simp [Pc.inProp, Pc.walkFrom, mem_drop_succ, drop_nil_of_len, drop_nil_of_none, List.drop_zero] at g0t)
-  all_goals (try rw [‹s.pc t = _›] at g2t)
-  all_goals (try simp [Pc.inProp, Pc.walkFrom, mem_drop_succ, drop_nil_of_len, drop_nil_of_none, List.drop_zero] at g2t)
-  all_goals (try rw [‹s.pc t = _›] at g3t)
-  all_goals (try simp [Pc.inProp, Pc.walkFrom, mem_drop_succ, drop_nil_of_len, drop_nil_of_none, List.drop_zero] at g3t)
-  all_goals (intro t' L h1 h2 h3; by_cases ht : t' = t <;> first | (subst ht; try simp [C, upd_apply, afterLists, nextList, Pc.inProp, Pc.walkFrom, mem_drop_succ, drop_nil_of_len, drop_nil_of_none, List.drop_zero] at h1 h2 h3 ⊢) | (try simp [ht, C, upd_apply, afterLists, nextList] at h1 h2 h3 ⊢))
-  all_goals grind [Pc.inProp, Pc.walkFrom, mem_drop_succ, drop_nil_of_len, drop_nil_of_none, List.drop_zero]
+  all_goals (try simp [Pc.bindParent, Pc.owns, Pc.destroying, okParent, St.eff] at g0t)
+  all_goals (try rw [‹s.pc t = _›] at g4t)
+  all_goals (try simp [Pc.bindParent, Pc.owns, Pc.destroying, okParent, St.eff] at g4t)
+  all_goals (try rw [‹s.pc t = _›] at g5t)
+  all_goals (try simp [Pc.bindParent, Pc.owns, Pc.destroying, okParent, St.eff] at g5t)
+  all_goals (try rw [‹s.pc t = _›] at g6t)
+  all_goals (try simp [Pc.bindParent, Pc.owns, Pc.destroying, okParent, St.eff] at g6t)
+  all_goals (try rw [‹s.pc t = _›] at g7t)
+  all_goals (try simp [Pc.bindParent, Pc.owns, Pc.destroying, okParent, St.eff] at g7t)
+  all_goals (try rw [‹s.pc t = _›] at g8t)
+  all_goals (try simp [Pc.bindParent, Pc.owns, Pc.destroying, okParent, St.eff] at g8t)
+  all_goals (try rw [‹s.pc t = _›] at g9t)
+  all_goals (try simp [Pc.bindParent, Pc.owns, Pc.destroying, okParent, St.eff] at g9t)
+  all_goals (try rw [‹s.pc t = _›] at g10t)
+  all_goals (try simp [Pc.bindParent, Pc.owns, Pc.destroying, okParent, St.eff] at g10t)
+  all_goals (intro t' x p n L h1 h2; by_cases ht : t' = t <;> first | (subst ht; try simp [C, St.eff, upd_apply, afterLists, nextList, Pc.bindParent, Pc.owns, Pc.destroying, okParent, St.eff] at h1 h2 ⊢) | (try simp [ht, C, St.eff, upd_apply, afterLists, nextList] at h1 h2 ⊢))
+  all_goals grind [Pc.bindParent, Pc.owns, Pc.destroying, okParent, St.eff]
 
-theorem epochWalk_exec_b (hS : Struct reg s) (hO : Orig s) (hR : Reach reg s) :
-    ∀ t' L, L ∈ reg → (execBind C s t).propMx = some t' → (execBind C s t).epoch L ≠ (execBind C s t).G → ∃ j, ((execBind C s t).pc t').walkFrom = some j ∧ L ∈ reg.drop j := by
-  have g0 := hR.epochWalk
-  have g0t := hR.epochWalk t
-  have g1 := hR.epochFree
-  have g2 := hR.propMx
-  have g2t := hR.propMx t
-  have g3 := hR.syncG
-  have g3t := hR.syncG t
-  have g4 := hR.epochNear
+theorem snapEpoch_exec_b (hS : Struct reg s) (hO : Orig s) (hH : Hint s) (hR : Reach reg s) :
+    ∀ t' x p n L, (execBind (C r) s t).pc t' = .bSpecL x p n → (execBind (C r) s t).lst p = some L → n ≤ (execBind (C r) s t).eff L := by
+  have g0 := hR.snapEpoch
+  have g0t := hR.snapEpoch t
+  have g1 := hR.epochLe
+  have g2 := hR.joinedLe
+  have g3 := hR.freshLe
+  have g4 := hR.syncG
+  have g4t := hR.syncG t
+  have g5 := hS.bindAlive
+  have g5t := hS.bindAlive t
+  have g6 := hS.ownsSt
+  have g6t := hS.ownsSt t
+  have g7 := hS.dyingOk
+  have g7t := hS.dyingOk t
+  have g8 := hS.regPc
+  have g8t := hS.regPc t
+  have g9 := hS.itemsOk
+  have g9t := hS.itemsOk t
+  have g10 := hS.notWasEmpty
+  have g10t := hS.notWasEmpty t
   unfold execBind
   try unfold walkNext
   try unfold afterHint
+  try unfold applyReset
   try simp only [C_propHolds, C_copyNeverClears, afterLists, ↓reduceIte, Bool.true_and]
   repeat' split
   all_goals (try rw [‹s.pc t = _›] at g0t)
-  all_goals (try simp [Pc.inProp, Pc.walkFrom, mem_drop_succ, drop_nil_of_len, drop_nil_of_none, List.drop_zero] at g0t)
-  all_goals (try rw [‹s.pc t = _›] at g2t)
-  all_goals (try simp [Pc.inProp, Pc.walkFrom, mem_drop_succ, drop_nil_of_len, drop_nil_of_none, List.drop_zero] at g2t)
-  all_goals (try rw [‹s.pc t = _›] at g3t)
-  all_goals (try simp [Pc.inProp, Pc.walkFrom, mem_drop_succ, drop_nil_of_len, drop_nil_of_none, List.drop_zero] at g3t)
-  all_goals (intro t' L h1 h2 h3; by_cases ht : t' = t <;> first | (subst ht; try simp [C, upd_apply, afterLists, nextList, Pc.inProp, Pc.walkFrom, mem_drop_succ, drop_nil_of_len, drop_nil_of_none, List.drop_zero] at h1 h2 h3 ⊢) | (try simp [ht, C, upd_apply, afterLists, nextList] at h1 h2 h3 ⊢))
-  all_goals grind [Pc.inProp, Pc.walkFrom, mem_drop_succ, drop_nil_of_len, drop_nil_of_none, List.drop_zero]
+  all_goals (try simp [Pc.bindParent, Pc.owns, Pc.destroying, okParent, St.eff] at g0t)
+  all_goals (try rw [‹s.pc t = _›] at g4t)
+  all_goals (try simp [Pc.bindParent, Pc.owns, Pc.destroying, okParent, St.eff] at g4t)
+  all_goals (try rw [‹s.pc t = _›] at g5t)
+  all_goals (try simp [Pc.bindParent, Pc.owns, Pc.destroying, okParent, St.eff] at g5t)
+  all_goals (try rw [‹s.pc t = _›] at g6t)
+  all_goals (try simp [Pc.bindParent, Pc.owns, Pc.destroying, okParent, St.eff] at g6t)
+  all_goals (try rw [‹s.pc t = _›] at g7t)
+  all_goals (try simp [Pc.bindParent, Pc.owns, Pc.destroying, okParent, St.eff] at g7t)
+  all_goals (try rw [‹s.pc t = _›] at g8t)
+  all_goals (try simp [Pc.bindParent, Pc.owns, Pc.destroying, okParent, St.eff] at g8t)
+  all_goals (try rw [‹s.pc t = _›] at g9t)
+  all_goals (try simp [Pc.bindParent, Pc.owns, Pc.destroying, okParent, St.eff] at g9t)
+  all_goals (try rw [‹s.pc t = _›] at g10t)
+  all_goals (try simp [Pc.bindParent, Pc.owns, Pc.destroying, okParent, St.eff] at g10t)
+  all_goals (intro t' x p n L h1 h2; by_cases ht : t' = t <;> first | (subst ht; try simp [C, St.eff, upd_apply, afterLists, nextList, Pc.bindParent, Pc.owns, Pc.destroying, okParent, St.eff] at h1 h2 ⊢) | (try simp [ht, C, St.eff, upd_apply, afterLists, nextList] at h1 h2 ⊢))
+  all_goals grind [Pc.bindParent, Pc.owns, Pc.destroying, okParent, St.eff]
 
-theorem epochWalk_exec_o (hS : Struct reg s) (hO : Orig s) (hR : Reach reg s) :
-    ∀ t' L, L ∈ reg → (execOther s t).propMx = some t' → (execOther s t).epoch L ≠ (execOther s t).G → ∃ j, ((execOther s t).pc t').walkFrom = some j ∧ L ∈ reg.drop j := by
-  have g0 := hR.epochWalk
-  have g0t := hR.epochWalk t
-  have g1 := hR.epochFree
-  have g2 := hR.propMx
-  have g2t := hR.propMx t
-  have g3 := hR.syncG
-  have g3t := hR.syncG t
-  have g4 := hR.epochNear
+theorem snapEpoch_exec_o (hS : Struct reg s) (hO : Orig s) (hH : Hint s) (hR : Reach reg s) :
+    ∀ t' x p n L, (execOther s t).pc t' = .bSpecL x p n → (execOther s t).lst p = some L → n ≤ (execOther s t).eff L := by
+  have g0 := hR.snapEpoch
+  have g0t := hR.snapEpoch t
+  have g1 := hR.epochLe
+  have g2 := hR.joinedLe
+  have g3 := hR.freshLe
+  have g4 := hR.syncG
+  have g4t := hR.syncG t
+  have g5 := hS.bindAlive
+  have g5t := hS.bindAlive t
+  have g6 := hS.ownsSt
+  have g6t := hS.ownsSt t
+  have g7 := hS.dyingOk
+  have g7t := hS.dyingOk t
+  have g8 := hS.regPc
+  have g8t := hS.regPc t
+  have g9 := hS.itemsOk
+  have g9t := hS.itemsOk t
+  have g10 := hS.notWasEmpty
+  have g10t := hS.notWasEmpty t
   unfold execOther
   try unfold walkNext
   try unfold afterHint
+  try unfold applyReset
   try simp only [C_propHolds, C_copyNeverClears, afterLists, ↓reduceIte, Bool.true_and]
   repeat' split
   all_goals (try rw [‹s.pc t = _›] at g0t)
-  all_goals (try simp [Pc.inProp, Pc.walkFrom, mem_drop_succ, drop_nil_of_len, drop_nil_of_none, List.drop_zero] at g0t)
-  all_goals (try rw [‹s.pc t = _›] at g2t)
-  all_goals (try simp [Pc.inProp, Pc.walkFrom, mem_drop_succ, drop_nil_of_len, drop_nil_of_none, List.drop_zero] at g2t)
-  all_goals (try rw [‹s.pc t = _›] at g3t)
-  all_goals (try simp [Pc.inProp, Pc.walkFrom, mem_drop_succ, drop_nil_of_len, drop_nil_of_none, List.drop_zero] at g3t)
-  all_goals (intro t' L h1 h2 h3; by_cases ht : t' = t <;> first | (subst ht; try simp [C, upd_apply, afterLists, nextList, Pc.inProp, Pc.walkFrom, mem_drop_succ, drop_nil_of_len, drop_nil_of_none, List.drop_zero] at h1 h2 h3 ⊢) | (try simp [ht, C, upd_apply, afterLists, nextList] at h1 h2 h3 ⊢))
-  all_goals grind [Pc.inProp, Pc.walkFrom, mem_drop_succ, drop_nil_of_len, drop_nil_of_none, List.drop_zero]
+  all_goals (try simp [Pc.bindParent, Pc.owns, Pc.destroying, okParent, St.eff] at g0t)
+  all_goals (try rw [‹s.pc t = _›] at g4t)
+  all_goals (try simp [Pc.bindParent, Pc.owns, Pc.destroying, okParent, St.eff] at g4t)
+  all_goals (try rw [‹s.pc t = _›] at g5t)
+  all_goals (try simp [Pc.bindParent, Pc.owns, Pc.destroying, okParent, St.eff] at g5t)
+  all_goals (try rw [‹s.pc t = _›] at g6t)
+  all_goals (try simp [Pc.bindParent, Pc.owns, Pc.destroying, okParent, St.eff] at g6t)
+  all_goals (try rw [‹s.pc t = _›] at g7t)
+  all_goals (try simp [Pc.bindParent, Pc.owns, Pc.destroying, okParent, St.eff] at g7t)
+  all_goals (try rw [‹s.pc t = _›] at g8t)
+  all_goals (try simp [Pc.bindParent, Pc.owns, Pc.destroying, okParent, St.eff] at g8t)
+  all_goals (try rw [‹s.pc t = _›] at g9t)
+  all_goals (try simp [Pc.bindParent, Pc.owns, Pc.destroying, okParent, St.eff] at g9t)
+  all_goals (try rw [‹s.pc t = _›] at g10t)
+  all_goals (try simp [Pc.bindParent, Pc.owns, Pc.destroying, okParent, St.eff] at g10t)
+  all_goals (intro t' x p n L h1 h2; by_cases ht : t' = t <;> first | (subst ht; try simp [C, St.eff, upd_apply, afterLists, nextList, Pc.bindParent, Pc.owns, Pc.destroying, okParent, St.eff] at h1 h2 ⊢) | (try simp [ht, C, St.eff, upd_apply, afterLists, nextList] at h1 h2 ⊢))
+  all_goals grind [Pc.bindParent, Pc.owns, Pc.destroying, okParent, St.eff]
 
-theorem epochWalk_exec (hS : Struct reg s) (hO : Orig s) (hR : Reach reg s) :
-    ∀ t' L, L ∈ reg → (exec C reg s t).propMx = some t' → (exec C reg s t).epoch L ≠ (exec C reg s t).G → ∃ j, ((exec C reg s t).pc t').walkFrom = some j ∧ L ∈ reg.drop j := by
+theorem snapEpoch_exec (hS : Struct reg s) (hO : Orig s) (hH : Hint s) (hR : Reach reg s) :
+    ∀ t' x p n L, (exec (C r) reg s t).pc t' = .bSpecL x p n → (exec (C r) reg s t).lst p = some L → n ≤ (exec (C r) reg s t).eff L := by
   unfold exec
   split
-  · exact epochWalk_exec_c hS hO hR
+  · exact snapEpoch_exec_c hS hO hH hR
   · split
-    · exact epochWalk_exec_b hS hO hR
-    · exact epochWalk_exec_o hS hO hR
+    · exact snapEpoch_exec_b hS hO hH hR
+    · exact snapEpoch_exec_o hS hO hH hR
 
-theorem epochWalk_begin (hS : Struct reg s) (hO : Orig s) (hR : Reach reg s) (hi : s.pc t = .idle) :
-    ∀ t' L, L ∈ reg → (begin reg s t).propMx = some t' → (begin reg s t).epoch L ≠ (begin reg s t).G → ∃ j, ((begin reg s t).pc t').walkFrom = some j ∧ L ∈ reg.drop j := by
-  have g0 := hR.epochWalk
-  have g0t := hR.epochWalk t
-  have g1 := hR.epochFree
-  have g2 := hR.propMx
-  have g2t := hR.propMx t
-  have g3 := hR.syncG
-  have g3t := hR.syncG t
-  have g4 := hR.epochNear
+theorem snapEpoch_begin (hS : Struct reg s) (hO : Orig s) (hH : Hint s) (hR : Reach reg s) (hi : s.pc t = .idle) :
+    ∀ t' x p n L, (begin (C r) reg s t).pc t' = .bSpecL x p n → (begin (C r) reg s t).lst p = some L → n ≤ (begin (C r) reg s t).eff L := by
+  have g0 := hR.snapEpoch
+  have g0t := hR.snapEpoch t
+  have g1 := hR.epochLe
+  have g2 := hR.joinedLe
+  have g3 := hR.freshLe
+  have g4 := hR.syncG
+  have g4t := hR.syncG t
+  have g5 := hS.bindAlive
+  have g5t := hS.bindAlive t
+  have g6 := hS.ownsSt
+  have g6t := hS.ownsSt t
+  have g7 := hS.dyingOk
+  have g7t := hS.dyingOk t
+  have g8 := hS.regPc
+  have g8t := hS.regPc t
+  have g9 := hS.itemsOk
+  have g9t := hS.itemsOk t
+  have g10 := hS.notWasEmpty
+  have g10t := hS.notWasEmpty t
   begin_cases
   all_goals (try rw [hi] at g0t)
-  all_goals (try simp [Pc.inProp, Pc.walkFrom, mem_drop_succ, drop_nil_of_len, drop_nil_of_none, List.drop_zero] at g0t)
-  all_goals (try rw [hi] at g2t)
-  all_goals (try simp [Pc.inProp, Pc.walkFrom, mem_drop_succ, drop_nil_of_len, drop_nil_of_none, List.drop_zero] at g2t)
-  all_goals (try rw [hi] at g3t)
-  all_goals (try simp [Pc.inProp, Pc.walkFrom, mem_drop_succ, drop_nil_of_len, drop_nil_of_none, List.drop_zero] at g3t)
-  all_goals (intro t' L h1 h2 h3; by_cases ht : t' = t <;> first | (subst ht; try simp [C, upd_apply, afterLists, nextList, Pc.inProp, Pc.walkFrom, mem_drop_succ, drop_nil_of_len, drop_nil_of_none, List.drop_zero] at h1 h2 h3 ⊢) | (try simp [ht, C, upd_apply, afterLists, nextList] at h1 h2 h3 ⊢))
-  all_goals grind [Pc.inProp, Pc.walkFrom, mem_drop_succ, drop_nil_of_len, drop_nil_of_none, List.drop_zero]
+  all_goals (try simp [Pc.bindParent, Pc.owns, Pc.destroying, okParent, St.eff] at g0t)
+  all_goals (try rw [hi] at g4t)
+  all_goals (try simp [Pc.bindParent, Pc.owns, Pc.destroying, okParent, St.eff] at g4t)
+  all_goals (try rw [hi] at g5t)
+  all_goals (try simp [Pc.bindParent, Pc.owns, Pc.destroying, okParent, St.eff] at g5t)
+  all_goals (try rw [hi] at g6t)
+  all_goals (try simp [Pc.bindParent, Pc.owns, Pc.destroying, okParent, St.eff] at g6t)
+  all_goals (try rw [hi] at g7t)
+  all_goals (try simp [Pc.bindParent, Pc.owns, Pc.destroying, okParent, St.eff] at g7t)
+  all_goals (try rw [hi] at g8t)
+  all_goals (try simp [Pc.bindParent, Pc.owns, Pc.destroying, okParent, St.eff] at g8t)
+  all_goals (try rw [hi] at g9t)
+  all_goals (try simp [Pc.bindParent, Pc.owns, Pc.destroying, okParent, St.eff] at g9t)
+  all_goals (try rw [hi] at g10t)
+  all_goals (try simp [Pc.bindParent, Pc.owns, Pc.destroying, okParent, St.eff] at g10t)
+  all_goals (intro t' x p n L h1 h2; by_cases ht : t' = t <;> first | (subst ht; try simp [C, St.eff, upd_apply, afterLists, nextList, Pc.bindParent, Pc.owns, Pc.destroying, okParent, St.eff] at h1 h2 ⊢) | (try simp [ht, C, St.eff, upd_apply, afterLists, nextList] at h1 h2 ⊢))
+  all_goals grind [Pc.bindParent, Pc.owns, Pc.destroying, okParent, St.eff]
+
+theorem curCan_exec_c (hS : Struct reg s) (hO : Orig s) (hH : Hint s) (hR : Reach reg s) :
+    ∀ a m, Cur (execCancel (C r) reg s t).wst (execCancel (C r) reg s t).rst a m → (execCancel (C r) reg s t).can a = true := by
+  have g0 := hR.curCan
+  have g1 := hR.copyTrue
+  have g1t := hR.copyTrue t
+  have g2 := hR.wstLe
+  unfold execCancel
+  try unfold walkNext
+  try unfold afterHint
+  try unfold applyReset
+  try simp only [C_propHolds, C_copyNeverClears, afterLists, ↓reduceIte, Bool.true_and]
+  repeat' split
+  all_goals (try rw [‹s.pc t = _›] at g1t)
+  all_goals (try simp [Pc.copyVal] at g1t)
+  all_goals (intro a m h1; try simp [C, St.eff, upd_apply, afterLists, nextList] at h1 ⊢)
+  all_goals grind [Pc.copyVal , → cur_upd_wst, → cur_upd_rst]
+
+theorem curCan_exec_b (hS : Struct reg s) (hO : Orig s) (hH : Hint s) (hR : Reach reg s) :
+    ∀ a m, Cur (execBind (C r) s t).wst (execBind (C r) s t).rst a m → (execBind (C r) s t).can a = true := by
+  have g0 := hR.curCan
+  have g1 := hR.copyTrue
+  have g1t := hR.copyTrue t
+  have g2 := hR.wstLe
+  unfold execBind
+  try unfold walkNext
+  try unfold afterHint
+  try unfold applyReset
+  try simp only [C_propHolds, C_copyNeverClears, afterLists, ↓reduceIte, Bool.true_and]
+  repeat' split
+  all_goals (try rw [‹s.pc t = _›] at g1t)
+  all_goals (try simp [Pc.copyVal] at g1t)
+  all_goals (intro a m h1; try simp [C, St.eff, upd_apply, afterLists, nextList] at h1 ⊢)
+  all_goals grind [Pc.copyVal , → cur_upd_wst, → cur_upd_rst]
+
+theorem curCan_exec_o (hS : Struct reg s) (hO : Orig s) (hH : Hint s) (hR : Reach reg s) :
+    ∀ a m, Cur (execOther s t).wst (execOther s t).rst a m → (execOther s t).can a = true := by
+  have g0 := hR.curCan
+  have g1 := hR.copyTrue
+  have g1t := hR.copyTrue t
+  have g2 := hR.wstLe
+  unfold execOther
+  try unfold walkNext
+  try unfold afterHint
+  try unfold applyReset
+  try simp only [C_propHolds, C_copyNeverClears, afterLists, ↓reduceIte, Bool.true_and]
+  repeat' split
+  all_goals (try rw [‹s.pc t = _›] at g1t)
+  all_goals (try simp [Pc.copyVal] at g1t)
+  all_goals (intro a m h1; try simp [C, St.eff, upd_apply, afterLists, nextList] at h1 ⊢)
+  all_goals grind [Pc.copyVal , → cur_upd_wst, → cur_upd_rst]
+
+theorem curCan_exec (hS : Struct reg s) (hO : Orig s) (hH : Hint s) (hR : Reach reg s) :
+    ∀ a m, Cur (exec (C r) reg s t).wst (exec (C r) reg s t).rst a m → (exec (C r) reg s t).can a = true := by
+  unfold exec
+  split
+  · exact curCan_exec_c hS hO hH hR
+  · split
+    · exact curCan_exec_b hS hO hH hR
+    · exact curCan_exec_o hS hO hH hR
+
+theorem curCan_begin (hS : Struct reg s) (hO : Orig s) (hH : Hint s) (hR : Reach reg s) (hi : s.pc t = .idle) :
+    ∀ a m, Cur (begin (C r) reg s t).wst (begin (C r) reg s t).rst a m → (begin (C r) reg s t).can a = true := by
+  have g0 := hR.curCan
+  have g1 := hR.copyTrue
+  have g1t := hR.copyTrue t
+  have g2 := hR.wstLe
+  begin_cases
+  all_goals (try rw [hi] at g1t)
+  all_goals (try simp [Pc.copyVal] at g1t)
+  all_goals (intro a m h1; try simp [C, St.eff, upd_apply, afterLists, nextList] at h1 ⊢)
+  all_goals grind [Pc.copyVal , → cur_upd_wst, → cur_upd_rst]
+
+theorem pend_exec_c (hS : Struct reg s) (hO : Orig s) (hH : Hint s) (hR : Reach reg s) :
+    ∀ a m, Cur (execCancel (C r) reg s t).wst (execCancel (C r) reg s t).rst a m → Passed (execCancel (C r) reg s t).skipSt (execCancel (C r) reg s t).srcOf (execCancel (C r) reg s t).pst (execCancel (C r) reg s t).G a m ∨ ∃ t', ((execCancel (C r) reg s t).pc t').preWalk = some a := by
+  have g0 := hR.pend
+  have g1 := hR.curCan
+  have g2 := hR.wstLe
+  unfold execCancel
+  try unfold walkNext
+  try unfold afterHint
+  try unfold applyReset
+  try simp only [C_propHolds, C_copyNeverClears, afterLists, ↓reduceIte, Bool.true_and]
+  repeat' split
+  all_goals (intro a m h1; try simp [C, St.eff, upd_apply, afterLists, nextList] at h1 ⊢)
+  all_goals grind [Pc.preWalk , → cur_wst, → cur_upd_wst, → cur_upd_rst, passed_upd_skip_fwd, passed_upd_skip_self, passed_bump]
+
+theorem pend_exec_b (hS : Struct reg s) (hO : Orig s) (hH : Hint s) (hR : Reach reg s) :
+    ∀ a m, Cur (execBind (C r) s t).wst (execBind (C r) s t).rst a m → Passed (execBind (C r) s t).skipSt (execBind (C r) s t).srcOf (execBind (C r) s t).pst (execBind (C r) s t).G a m ∨ ∃ t', ((execBind (C r) s t).pc t').preWalk = some a := by
+  have g0 := hR.pend
+  have g1 := hR.curCan
+  have g2 := hR.wstLe
+  unfold execBind
+  try unfold walkNext
+  try unfold afterHint
+  try unfold applyReset
+  try simp only [C_propHolds, C_copyNeverClears, afterLists, ↓reduceIte, Bool.true_and]
+  repeat' split
+  all_goals (intro a m h1; try simp [C, St.eff, upd_apply, afterLists, nextList] at h1 ⊢)
+  all_goals grind [Pc.preWalk , → cur_wst, → cur_upd_wst, → cur_upd_rst, passed_upd_skip_fwd, passed_upd_skip_self, passed_bump]
+
+theorem pend_exec_o (hS : Struct reg s) (hO : Orig s) (hH : Hint s) (hR : Reach reg s) :
+    ∀ a m, Cur (execOther s t).wst (execOther s t).rst a m → Passed (execOther s t).skipSt (execOther s t).srcOf (execOther s t).pst (execOther s t).G a m ∨ ∃ t', ((execOther s t).pc t').preWalk = some a := by
+  have g0 := hR.pend
+  have g1 := hR.curCan
+  have g2 := hR.wstLe
+  unfold execOther
+  try unfold walkNext
+  try unfold afterHint
+  try unfold applyReset
+  try simp only [C_propHolds, C_copyNeverClears, afterLists, ↓reduceIte, Bool.true_and]
+  repeat' split
+  all_goals (intro a m h1; try simp [C, St.eff, upd_apply, afterLists, nextList] at h1 ⊢)
+  all_goals grind [Pc.preWalk , → cur_wst, → cur_upd_wst, → cur_upd_rst, passed_upd_skip_fwd, passed_upd_skip_self, passed_bump]
+
+theorem pend_exec (hS : Struct reg s) (hO : Orig s) (hH : Hint s) (hR : Reach reg s) :
+    ∀ a m, Cur (exec (C r) reg s t).wst (exec (C r) reg s t).rst a m → Passed (exec (C r) reg s t).skipSt (exec (C r) reg s t).srcOf (exec (C r) reg s t).pst (exec (C r) reg s t).G a m ∨ ∃ t', ((exec (C r) reg s t).pc t').preWalk = some a := by
+  unfold exec
+  split
+  · exact pend_exec_c hS hO hH hR
+  · split
+    · exact pend_exec_b hS hO hH hR
+    · exact pend_exec_o hS hO hH hR
+
+theorem pend_begin (hS : Struct reg s) (hO : Orig s) (hH : Hint s) (hR : Reach reg s) (hi : s.pc t = .idle) :
+    ∀ a m, Cur (begin (C r) reg s t).wst (begin (C r) reg s t).rst a m → Passed (begin (C r) reg s t).skipSt (begin (C r) reg s t).srcOf (begin (C r) reg s t).pst (begin (C r) reg s t).G a m ∨ ∃ t', ((begin (C r) reg s t).pc t').preWalk = some a := by
+  have g0 := hR.pend
+  have g1 := hR.curCan
+  have g2 := hR.wstLe
+  begin_cases
+  all_goals (intro a m h1; try simp [C, St.eff, upd_apply, afterLists, nextList] at h1 ⊢)
+  all_goals grind [Pc.preWalk , → cur_wst, → cur_upd_wst, → cur_upd_rst, passed_upd_skip_fwd, passed_upd_skip_self, passed_bump]
 
 end TbbVerif.C04
